@@ -19,9 +19,9 @@ BOUNDS = {
 ASSUMPTIONS = ["gammaln/lgamma/log are uninterpreted functions (numeric values of the special functions are outside); the axiom lgamma(1) = 0 is added",
                "state_counts is replaced by a symbolic count table in symbolic runs; the same scenario is re-run on a real pandas frame with integer "
                "counts and the real special functions (concrete twin) - this validates the stub against pandas' counting",
-               "BDs local score is not claimed (its pseudo-count definition is ambiguous in the source); its structure prior is covered in (a)"]
+               "BDs local score is compared with Scutari's definition (imaginary sample spread over the observed parent configurations only)"]
 
-SCORES = ["K2Score", "BDeuScore", "BicScore", "AICScore"]
+SCORES = ["K2Score", "BDeuScore", "BDsScore", "BicScore", "AICScore"]
 
 
 def install_stubs(desc):
@@ -241,7 +241,7 @@ def run_closed(desc, M):
     state_names = {"C": list(range(r)), **{p: list(range(card[p])) for p in pa}}
     cls = getattr(SS, desc["score"])
     kw = dict(state_names=state_names)
-    if desc["score"] == "BDeuScore":
+    if desc["score"] in ("BDeuScore", "BDsScore"):
         kw["equivalent_sample_size"] = M.impl(ess)
     sc = cls(data, **kw)
     if M.symbolic:
@@ -283,6 +283,16 @@ def run_closed(desc, M):
             want = want + LG(alpha) - LG(Nj[j] + alpha)
             for i in range(r):
                 want = want + LG(n(i, j) + beta) - LG(beta)
+    elif name == "BDsScore":
+        # Scutari's BDs: the imaginary sample is spread over the OBSERVED parent configurations only: alpha_ijk = ess / (r * q~)
+        qt = len(cols)
+        alpha = ess / qt
+        beta = ess / (qt * r)
+        want = 0
+        for j in cols:
+            want = want + LG(alpha) - LG(Nj[j] + alpha)
+            for i in range(r):
+                want = want + LG(n(i, j) + beta) - LG(beta)
     else:
         want = 0
         for j in cols:
@@ -300,13 +310,27 @@ def run_closed(desc, M):
         else:
             want = want - pen
     tag = f"{name} C|{pa} cards {card} missing parent-config {desc['missing_col']} missing child state {desc['missing_row']}"
+    key = None
+    if name == "BDsScore" and desc["missing_col"] is not None:
+        # recognise the recorded finding precisely: pgmpy spreads the prior over ALL q parent configurations for the cell hyper-parameters
+        # (beta = ess / (q r)) while using the observed ones for alpha; the key is used only if the returned value IS that formula
+        alpha_p = ess / len(cols)
+        beta_p = ess / (q * r)
+        pg = -(q - len(cols)) * LG(alpha_p)     # and a spurious lgamma(alpha) term per unobserved configuration
+        for j in cols:
+            pg = pg + LG(alpha_p) - LG(Nj[j] + alpha_p)
+            for i in range(r):
+                pg = pg + LG(n(i, j) + beta_p) - LG(beta_p)
+        same = (core.lift(got).q == core.lift(pg).q) if M.symbolic else abs(float(got) - float(pg)) <= 1e-9 * (1 + abs(float(pg)))
+        if same:
+            key = "closed/BDsScore:known-cell-prior-spread-over-unobserved-parent-configurations"
     if M.symbolic:
         M.samples.append(f"{tag}: local_score == closed form over lgam()/ln()")
-        M.eq(got, want, f"{name} local score equals its published closed form", detail=tag)
-        M.eq(got_rev, want, f"{name} local score independent of the order in which parents are listed", detail=tag)
+        M.eq(got, want, f"{name} local score equals its published closed form", detail=tag, key=key)
+        M.eq(got_rev, got, f"{name} local score independent of the order in which parents are listed", detail=tag)
     else:
-        M.approx(got, want, 1e-9, f"{name} local score equals its published closed form", detail=tag)
-        M.approx(got_rev, want, 1e-9, f"{name} local score independent of the order in which parents are listed", detail=tag)
+        M.approx(got, want, 1e-9, f"{name} local score equals its published closed form", detail=tag, key=key)
+        M.approx(got_rev, got, 1e-9, f"{name} local score independent of the order in which parents are listed", detail=tag)
 
 
 def run_equiv(desc, M):
